@@ -65,18 +65,21 @@ func newConn(ctx context.Context, onConnect func(net.Conn) net.Conn, onClose fun
 
 func (c *conn) store(index int, resultChan chan data) {
 	c.lock.Lock()
+	verifEvent("store", c, index)
 	c.results[index] = resultChan
 	c.lock.Unlock()
 }
 
 func (c *conn) delete(index int) {
 	c.lock.Lock()
+	verifEvent("delete", c, index)
 	delete(c.results, index)
 	c.lock.Unlock()
 }
 
 func (c *conn) loadAndDelete(index int) (resultChan chan data, loaded bool) {
 	c.lock.Lock()
+	verifEvent("loadAndDelete", c, index)
 	if resultChan, loaded = c.results[index]; loaded {
 		delete(c.results, index)
 	}
@@ -85,8 +88,10 @@ func (c *conn) loadAndDelete(index int) (resultChan chan data, loaded bool) {
 }
 
 func (c *conn) rangeAndClean(f func(index int, resultChan chan data)) {
+	verifYield("before-clean", c, 0)
 	c.lock.Lock()
 	for len(c.results) > 0 {
+		verifEvent("clean", c, len(c.results))
 		results := c.results
 		c.results = make(map[int]chan data)
 		c.lock.Unlock()
@@ -96,13 +101,18 @@ func (c *conn) rangeAndClean(f func(index int, resultChan chan data)) {
 		runtime.Gosched()
 		c.lock.Lock()
 	}
+	verifEvent("clean-done", c, 0)
 	c.lock.Unlock()
+	verifYield("after-clean", c, 0)
 }
 
 func (c *conn) Transport(ctx context.Context, request []byte) (response []byte, err error) {
 	index := int(atomic.AddInt32(&c.counter, 1) & 0x7fffffff)
 	resultChan := make(chan data, 1)
+	verifYield("before-store", c, index)
 	c.store(index, resultChan)
+	verifYield("after-store", c, index)
+	verifYield("before-enqueue", c, index)
 	select {
 	case <-ctx.Done():
 		c.delete(index)
@@ -124,6 +134,7 @@ func (c *conn) Transport(ctx context.Context, request []byte) (response []byte, 
 }
 
 func (c *conn) Exit(onExit func(), err error) {
+	verifYieldErr("before-onExit", c, err)
 	onExit()
 	if err != nil {
 		c.Close(err)
@@ -153,6 +164,7 @@ func (c *conn) Send(ctx context.Context, onExit func()) {
 		case <-ctx.Done():
 			return
 		case request := <-c.requests:
+			verifYield("dequeued", c, request.Index)
 			if err = c.send(request); err != nil {
 				return
 			}
